@@ -88,48 +88,48 @@ CHECKS = {
         "model_checking",
         "bounded-exhaustive enumeration of grammars x cost vectors x erroneous inputs; every reported repair sequence replayed through an independent LR driver over the public table; differential re-parse of the repaired input",
         "For every grammar of the universes and families (tables with conflicts included), every cost vector and every input up to the bound, the real CPCT+ parser runs in a watched child process under a deterministic step budget. An independent LR driver over the public action/goto interface reproduces every error configuration (position and state are cross-checked with the reported error), applies every reported sequence of every error and requires three further shifts or acceptance; it then applies the first sequence, predicts the position of the next error, the final outcome, the exact leaves of the returned tree (inserted tokens zero-length, faulty, at the next real lexeme) and, on conflict-free tables, re-parses the repaired input from scratch with recovery off and requires the identical tree.",
-        "TRY_PARSE_AT_MOST (250) never binds at these input lengths. The from-scratch re-parse is only required on conflict-free tables (elsewhere reductions made under the erroneous lookahead are irrevocable and need not be those of a fresh parse). Parses that do not return are C07's subject.",
+        "The from-scratch re-parse is only required on conflict-free tables (elsewhere reductions made under the erroneous lookahead are irrevocable and need not be those of a fresh parse). Parses that do not return are C07's subject.",
         "DESIGN.md 3/C05",
     ),
     "C06": (
         "model_checking",
         "explicit-state exhaustive search over repair sequences (Insert/Delete/Shift moves from the error configuration) as reference for every reported repair set",
-        "Same space as C05 plus every %avoid_insert subset on the smallest grammars. For every reported error an explicit-state search enumerates every edit sequence individually (no merging, no buckets) by increasing cost up to the first cost with a success, ranks the successes by the distance parsing continues, strips trailing shifts and de-duplicates; the reported list must have exactly that cost and be exactly that set, contain no duplicate, no trailing shift, no end-of-input insertion, list %avoid_insert sequences last and shorter sequences first inside each group.",
+        "Same space as C05 plus every %avoid_insert subset on the smallest grammars, plus long inputs on which the ranking window (TRY_PARSE_AT_MOST = 250 lexemes from the error) binds: for every conflict-free productive grammar of <= 3 tokens, sentences of about 270 lexemes (short prefix + one token or a pair of tokens repeated, accepted by the canonical LR(1) reference) with one deletion, insertion or substitution among the first three lexemes that has a one-edit repair at the detection point (84k such inputs in the quick tier). For every reported error an explicit-state search enumerates every edit sequence individually (no merging, no buckets) by increasing cost up to the first cost with a success, ranks the successes by the distance parsing continues, strips trailing shifts and de-duplicates; the reported list must have exactly that cost and be exactly that set, contain no duplicate, no trailing shift, no end-of-input insertion, list %avoid_insert sequences last and shorter sequences first inside each group.",
         "Reference search bounded by cost 12 / 400k nodes per error (cases beyond are counted, never judged). Sequences the implementation reports but that do not replay are attributed to C05.",
         "DESIGN.md 3/C06",
     ),
     "C07": (
         "model_checking",
         "bounded-exhaustive enumeration of acyclic grammars x inputs (incl. repeated-error inputs) under a watched process per grammar; progress and outcome invariants on every returned error list; termination by watchdog + memory limit",
-        "Every acyclic grammar of the universes and families, every input up to the bound plus 2-4 fold repetitions of every short input (many independent errors), parsed by the real recovering parser in watched child processes (per-parse progress marks, time and memory limits). Every returned result must have strictly increasing error positions at least three lexemes (or the rest of the input) apart, at most |input|+1 errors, repairs on every error but the last, a value iff every error has a repair, and an Earley-accepted input when there is a value and no error. A parse that does not return is a violation unless explained by the listed known finding (reduction loop in the table, detected by the reference driver and confirmed on the real parser).",
-        "Quick tier: grammars whose table has a reduction loop (known finding C07-a) only get the plain-parse screen. Wall budget replaced by a step budget (H1/H2); all invariants hold whatever the budget.",
+        "Every acyclic grammar of the universes and families, every input up to the bound plus 2-4 fold repetitions of every short input (many independent errors), parsed by the real recovering parser in watched child processes (per-parse progress marks, time and memory limits). Every returned result must have strictly increasing error positions at least three lexemes (or the rest of the input) apart, at most |input|+1 errors, repairs on every error but the last, a value iff every error has a repair, and an Earley-accepted input when there is a value and no error. A parse that does not return is a violation unless explained by the listed known finding (reduction loop in the table, detected by the reference driver and confirmed on the real parser). Deadline pass: the environment answer 'the recovery deadline passes during the search' is forced on every grammar of <= 2 tokens (one more, unmentioned token; inputs w1 u^40 w2; wall-clock budget 1 ms, no step limit); the same invariants must hold, in particular no value and a last error without repairs - never an empty error list.",
+        "Quick tier: grammars whose table has a reduction loop (known finding C07-a) only get the plain-parse screen. Wall budget replaced by a step budget (H1/H2) except in the deadline pass; all invariants hold whatever the budget; how many parses of the deadline pass actually run out of time depends on the machine (reported, and required to be > 0).",
         "DESIGN.md 3/C07",
     ),
     "C01": (
         "model_checking",
         "bounded-exhaustive enumeration of grammars x token strings; real parser vs Earley recogniser and derivation-tree validator",
-        "Every grammar of the listed universes and structured families that table construction accepts is parsed by the real parser on every token string up to the length bound; every clean acceptance must return a tree that is a derivation of exactly that input from the start rule and must be a sentence according to an independent Earley recogniser; on conflict-free tables acceptance must equal membership in both directions. The references are cross-checked against brute-force language enumeration on each run. The per-state automaton certificate (closure exactness, edge kernels, start kernel, table = automaton) that extends the verdict to all inputs of each grammar is evaluated by C16/C03 on the same grammars.",
+        "Every grammar of the listed universes (incl. the one-token universes U(2,1,2,3,7) / U(2,1,2,4,8) / U(2,1,3,3,8), the smallest that contain tables whose construction strands a state) and structured families (F-lalr, F-lalr3: two-item kernels reached over paths of different lengths, F-gc: stranded-state tables with their edit-distance-1 neighbourhoods, F-wide: skeletons moved to token indices 62-120 and rule indices up to 65, empty-production / chain / ternary / operator skeletons, seed grammars) that table construction accepts is parsed by the real parser on every token string up to the length bound (alphabets of more than five tokens: additionally every sentence of up to 7 lexemes with its prefixes and single-token substitutions, deletions and insertions); every clean acceptance must return a tree that is a derivation of exactly that input from the start rule and must be a sentence according to an independent Earley recogniser; on conflict-free tables acceptance must equal membership in both directions. The references are cross-checked against brute-force language enumeration on each run. The per-state automaton certificate (closure exactness, edge kernels, start kernel, table = automaton) that extends the verdict to all inputs of each grammar is evaluated by C16/C03 on the same grammars.",
         "Inputs longer than the bound and grammars larger than the universes are outside the claim; grammars with derivation cycles are checked at table level only.",
         "DESIGN.md 3/C01",
     ),
     "C02": (
         "model_checking",
         "bounded-exhaustive enumeration of LR(1) grammars x token strings; Pager-minimised automaton vs an independent canonical LR(1) construction and parser",
-        "For every grammar of the universes, the LR(1)-not-LALR(1) families (all subsets of the classic counter-example and two variants; every 3-6 production subset of {x,y} {A,B} {a,b,c} with three suffix tokens in both rule orders, so that weakly-compatible, incompatible and subset contexts all occur), the seed grammars and their complete edit-distance-1 neighbourhood whose canonical LR(1) automaton is conflict-free: the real construction must report no conflicts and no more states than the canonical automaton, and for every input up to the bound the real parser and the canonical LR(1) parser must return the same tree or fail at the same lexeme.",
+        "For every grammar of the universes, the LR(1)-not-LALR(1) families (all subsets of the classic counter-example and two variants; every 3-6 production subset of {x,y} {A,B} {a,b,c} with three suffix tokens in both rule orders, so that weakly-compatible, incompatible and subset contexts all occur), family F-lalr3 (for each of the prefixes p, q, r r, s s s either nothing or 'prefix A u | prefix B v' with A: x y; B: x y and every ordered pair u != v of four suffix tokens, optionally 'prefix C' with C: x z: late merges, re-propagation to successors, stranded states), F-gc, F-wide, the seed grammars and their complete edit-distance-1 neighbourhood whose canonical LR(1) automaton is conflict-free: the real construction must report no conflicts and no more states than the canonical automaton, and for every input up to the bound the real parser and the canonical LR(1) parser must return the same tree or fail at the same lexeme.",
         "Late merges that need longer propagation chains than these grammars contain are outside the bound.",
         "DESIGN.md 3/C02",
     ),
     "C04": (
         "model_checking",
         "bounded-exhaustive enumeration of conflict-free productive grammars x rejected inputs; error position vs Earley viable-prefix oracle",
-        "For every conflict-free table of a grammar (universes, families incl. unit / nullable chains of depth 1-4 in both definition orders, seeds, neighbourhoods) whose rules are all productive and every rejected input up to the bound: with recovery off the result must be no value and exactly one error at the first lexeme (or the synthetic end-of-input lexeme, placed at the end of the last lexeme) where the input stops being a viable prefix according to the Earley oracle; with CPCT+ on, the first error must be at the same lexeme.",
+        "For every conflict-free table of a grammar (universes, families incl. unit / nullable chains of depth 1-4 in both definition orders, F-gc, F-wide, F-lalr3 in the thorough tier, seeds, neighbourhoods) whose rules are all productive and every rejected input up to the bound: with recovery off the result must be no value and exactly one error at the first lexeme (or the synthetic end-of-input lexeme, placed at the end of the last lexeme) where the input stops being a viable prefix according to the Earley oracle; with CPCT+ on, the first error must be at the same lexeme.",
         "Viable-prefix oracle = Earley on the productive-pruned grammar, validated against brute-force prefix enumeration.",
         "DESIGN.md 3/C04",
     ),
     "C03": (
         "model_checking",
         "bounded-exhaustive enumeration of grammars x precedence configurations; every (state, token) cell re-derived from the item sets by an independent oracle",
-        "Every grammar of the listed universes, of the operator-skeleton family and of the two-token-production family (ternary / mixfix skeletons, where the last token of a production and the token carrying a precedence differ), under every precedence declaration of <= 2 lines and every single %prec placement, is built with the real table constructor; for every state and token the expected action is re-derived from the closed item sets, the edges and the generator's own precedence model, and the shift/reduce and reduce/reduce lists are compared as multisets with the cells settled by the two default rules; accept/reduce failures are compared with a canonical LR(1) construction.",
+        "Every grammar of the listed universes (incl. U(2,1,2,3,7) / U(2,1,2,4,8)), of the operator-skeleton family, of F-wide (the skeletons with their precedence declarations at token indices 62-120) and of the two-token-production family (ternary / mixfix skeletons, where the last token of a production and the token carrying a precedence differ), under every precedence declaration of <= 2 lines and every single %prec placement, is built with the real table constructor; for every state and token the expected action is re-derived from the closed item sets, the edges and the generator's own precedence model, and the shift/reduce and reduce/reduce lists are compared as multisets with the cells settled by the two default rules; accept/reduce failures are compared with a canonical LR(1) construction.",
         "Item sets and edges are taken as given here (C01/C02/C16 check them). At most 3 precedence levels / 3-way reduce-reduce inside the universes.",
         "DESIGN.md 3/C03",
     ),
@@ -143,7 +143,7 @@ CHECKS = {
     "C17": (
         "model_checking",
         "bounded-exhaustive enumeration of grammars x cost vectors against fixed-point reference models; watched child processes for termination",
-        "Every grammar of the listed universes (all shapes up to 2-3 rules / 2-3 tokens / 6-7 symbols, up to renaming; unproductive, unreachable and self-deriving rules included) is pushed through the real FIRST/FOLLOW/nullable/has_path code and, with every cost vector over {1,2}/{1,2,3}, through the real sentence generator; every answer for every rule is compared with textbook least fixed points that are themselves cross-checked against brute-force sentential-form / language enumeration on each run. Termination is decided by a watched child process per query.",
+        "Every grammar of the listed universes (all shapes up to 2-3 rules / 2-3 tokens / 6-7 symbols, up to renaming; unproductive, unreachable and self-deriving rules included; quick tier: plus the finite-language three-rule grammars of U(3,2,2,2,6) for the two cost queries) and, for the static analyses, of the families F-chains, F-empty and F-wide (token sets longer than one machine word) is pushed through the real FIRST/FOLLOW/nullable/has_path code and, with every cost vector over {1,2}/{1,2,3}, through the real sentence generator; every answer for every rule is compared with textbook least fixed points that are themselves cross-checked against brute-force sentential-form / language enumeration on each run. Termination is decided by a watched child process per query.",
         "Claims nothing beyond the universes; trusts the reference fixed points (validated per run against brute force) and the watchdog limits (a timeout is a verdict only after confirmation in isolation).",
         "DESIGN.md 3/C17",
     ),
